@@ -553,7 +553,8 @@ def explain(base_fmt, outcome, after, d, ctx, before):
         return "locked-source"
     if base_fmt == "consolidate_file" and field == "values" and ci.get("threads", 0) > 1 and ci.get("unviewable"):
         return "noncontiguous-leaf-threaded"
-    if base_fmt == "pytree" and field == "dev" and ctx["consolidated"] and ci.get("file") and ci.get("src_dev") is None and d[2] == "cpu" and d[3] is None:
+    if base_fmt == "pytree" and field == "dev" and ctx["consolidated"] and ci.get("file") and ci.get("src_dev") is None and d[2] == "cpu" \
+            and d[3] is None and has_kind(before, "nt"):
         return "file-consolidated-device"
     return "unexplained"
 
@@ -700,7 +701,7 @@ def meta_records(md, path=""):
             recs[p + "/" + k] = [r[0].replace("torch.", ""), list(r[1]), r[2], r[3], r[4]]
         for k, v in m.items():
             if k not in ("cls", "non_tensors", "leaves", "cls_metadata"):
-                go(v, p + "/" + k)
+                go(v, p + "/" + (k[4:] if k.startswith("<TD>") else k))   # (fix: D115 escapes reserved names)
     go(md, path)
     return recs, nodes
 
